@@ -282,10 +282,20 @@ theorem plain_send_wedges_witness : GrpcMux.loopPastHandoff ⟨false⟩ false tr
 listener was in, the listener unblocked next accepts the stream announced for ITS id. -/
 theorem next_listener_gets_own_stream (C : GrpcMux.ClientCloseParams) (hC : C.Good) (tokenPending : Bool) (closed next : Nat) :
     GrpcMux.nextAccepts C tokenPending closed next = some (GrpcMux.Tag.brokered next) := by
-  have hd : C.discardsAnnounced = true := hC
+  have hd : C.discardsAnnounced = true := hC.1
   simp [GrpcMux.nextAccepts, GrpcMux.queueAtNextAccept, hd]
 
 /-- Witness: without the discard, the listener of 80 accepts the stream that was dialled for 70 -/
-theorem stale_stream_witness : GrpcMux.nextAccepts ⟨false⟩ true 70 80 = some (GrpcMux.Tag.brokered 70) := by decide
+theorem stale_stream_witness : GrpcMux.nextAccepts ⟨false, true⟩ true 70 80 = some (GrpcMux.Tag.brokered 70) := by decide
+
+/-- **A second dial to a pending id does not wedge the host's muxer**: however many knocks are acknowledged for a listener
+nobody is accepting on, the client muxer's lock is free afterwards. -/
+theorem muxer_lock_free_after_knocks (C : GrpcMux.ClientCloseParams) (hC : C.Good) (knocks : Nat) :
+    GrpcMux.muxerLockFree C knocks = true := by
+  have h : C.unblockNeverBlocks = true := hC.2
+  simp [GrpcMux.muxerLockFree, h]
+
+/-- Witness: with the blocking send, the second knock for an unserved listener keeps the lock -/
+theorem blocking_unblock_witness : GrpcMux.muxerLockFree ⟨true, false⟩ 2 = false := by decide
 
 end GoPlugin.Props.C09
